@@ -171,15 +171,17 @@ def render_probe(ctx, mon, v):
                 if not s.parsable and str(s) not in verb:
                     verb.append(str(s))
         optimizable = not verb
-        for opt, rs, re_ in FLAG_COMBOS:
-            out = v.to_str(optimize=opt, reset_start=rs, reset_end=re_)
+        outs = [(opt, rs, re_, v.to_str(optimize=opt, reset_start=rs, reset_end=re_)) for opt, rs, re_ in FLAG_COMBOS]
+        if isinstance(v, L.AnsiStr):
+            outs.append(('payload', False, True, str.__str__(v)))       # what print()/write() see
+        for opt, rs, re_, out in outs:
             ctx.ev('render-wellformed')
             stripped = PARAM_RE.sub('', out)
             det = {'value': o.describe(), 'out': out, 'flags': [opt, rs, re_]}
             if stripped != o.text:
                 ctx.violation('strip-does-not-give-base_str', dict(det, stripped=stripped), mech='render-not-wellformed')
                 return
-            if verb and (not opt or not optimizable):
+            if verb and opt != 'payload' and (not opt or not optimizable):
                 bodies = [m.group(0)[2:-1] for m in PARAM_RE.finditer(out)]
                 for t in verb:
                     pat = re.compile('(?:^|;)' + re.escape(t) + '(?:;|$)')
@@ -222,6 +224,39 @@ def guaranteed_forms(ctx, L, rng):
                           mech='guaranteed-not-parsable')
 
 
+def int_code_runs(ctx, L, rng):
+    """settings given as known non-reset integer codes (any run of complete groups, colour arguments that look
+    like introducers or selectors included) are always valid and parsable"""
+    toks = []
+    groups = []
+    for _ in range(rng.randint(1, 4)):
+        r = rng.random()
+        if r < 0.6:
+            base = rng.choice([38, 48, 58])
+            if rng.random() < 0.5:
+                g = [base, 5, rng.choice([38, 48, 58, 2, 5, 0, 7, 255])]
+            else:
+                g = [base, 2] + [rng.choice([38, 48, 58, 2, 5, 0, 1, 255]) for _ in range(3)]
+        else:
+            g = [rng.choice([1, 2, 3, 4, 5, 7, 9, 21, 22, 31, 39, 44, 49, 53, 59, 97, 107])]
+        groups.append(';'.join(str(x) for x in g))
+        toks += g
+    form = rng.randrange(3)
+    try:
+        s = L.AnsiString('x', *toks) if form == 0 else L.AnsiString('x', list(toks)) if form == 1 else \
+            L.AnsiString('x', ';'.join(str(t) for t in toks))
+    except Exception as e:
+        ctx.ev('guaranteed-form')
+        ctx.violation('guaranteed-form-rejected', {'codes': toks, 'error': repr(e)}, mech='guaranteed-rejected')
+        return
+    ctx.ev('guaranteed-form')
+    ctx.nontriv(('int-run', tuple(toks), form))
+    rep = [str(x) for x in s.ansi_settings_at(0)]
+    if rep != groups or not (s.is_formatting_valid() and s.is_formatting_parsable()):
+        ctx.violation('integer-codes-not-parsable', {'codes': toks, 'expected_groups': groups, 'reported': rep,
+                                                     'parsable': s.is_formatting_parsable()}, mech='guaranteed-not-parsable')
+
+
 def drive(ctx, mon, tier, only_case=None):
     L = ctx.L
     sz = tier_sizes(tier)
@@ -236,6 +271,8 @@ def drive(ctx, mon, tier, only_case=None):
             for _ in range(60):
                 check_flags(ctx, L, gen_setting_text(rng))
             guaranteed_forms(ctx, L, rng)
+            for _ in range(6):
+                int_code_runs(ctx, L, rng)
         # values mixing such settings with named ones
         hg = history(L, rng, ex, rng.randint(1, 10), sz['maxlen'], rng.choice(['mixed', 'hostile', 'wf']), WEIGHTS)
         for _ in range(rng.randint(0, 3)):
